@@ -41,6 +41,7 @@ import (
 // C16: concurrent checks and background updates are free of data races (race-oracle back-end of schedx).
 
 type c16Opts struct {
+	Proxy        bool // proxy_uri configured (requests to the provider go through an HTTP proxy)
 	TwoProviders bool // a second chain (x-tenant: b) with its own discovered provider
 	Discovery  bool
 	SecretRef  bool
@@ -155,6 +156,10 @@ func newC16World(o c16Opts) *c16World {
 		_, _ = ctl.Reconcile(context.Background(), ctrl.Request{NamespacedName: types.NamespacedName{Namespace: "default", Name: "s1"}})
 	}
 	hosts[w.host] = world.CannedIdP(base, w.answers)
+	if o.Proxy {
+		oc.ProxyUri = "http://proxy.test:3128"
+		hosts["proxy.test"] = world.CannedIdP(base, w.answers) // the proxy hands the (absolute-form) request to the provider
+	}
 	hosts["startup.idp.test"] = world.CannedIdP("http://startup.idp.test", nil)
 	world.InstallCannedNet(hosts, tlsHosts)
 	// the service is fully started before the first check: one key lookup through the provider's 'started'
@@ -474,6 +479,7 @@ func c16Scenarios(tier string) []schedx.Scenario {
 			c16Scenario("S4 CA file: callback||rotate", c16Opts{CAFile: true}, []string{"callback", "rotate"}, b),
 			c16Scenario("S4 CA file: callback||nocookie", c16Opts{CAFile: true}, []string{"callback", "nocookie"}, b),
 			c16Scenario("S5 jwks fetcher first use: callback||callback", c16Opts{JWKSFetch: true}, []string{"callback", "callback"}, b),
+			c16Scenario("S7 proxy: callback||refresh", c16Opts{Proxy: true}, []string{"callback", "refresh"}, b),
 		}
 	}
 	scs := mk(1) // function-entry + lock points, one pre-emption
